@@ -122,7 +122,7 @@ def c19(ctx, replay):
 @pipeline("C20")
 def c20(ctx, replay):
     thorough = ctx.tier == "thorough"
-    ctx.rule = ("behaviours of MC_Experiment: every script over {ok, solved, fail, cancel-while-evaluating, "
+    ctx.rule = ("behaviours of MC_Experiment: every script over {ok, solved, fail, fail-with-a-cancel-like-error, fail-while-reporting-solved, cancel-while-evaluating, "
                 "cancel-and-solved} for the configured runs x generations, with and without an observer, crossed with every single "
                 "observer notification during which the observer cancels the context (or none); each is run "
                 "through the real Experiment.Execute (sequential and parallel epoch executor, population of 8) with a "
